@@ -295,6 +295,14 @@ def check_theta_hat(ctx: Check, tree: Tree, A: Angles) -> None:
         c = A.unfolded(c)
         want = cos_theta_hat_spec(i, j)
         ok = equal(c, want)
+        # orientation: theta-hat_{1(2)} + theta-hat_{2(3)} + theta-hat_{3(1)} = 2 pi (the three momenta
+        # are coplanar and close a triangle) forces +acos for the three cyclic pairs, antisymmetry
+        # then -acos for the anti-cyclic ones
+        cyclic = (i, j) in {(1, 2), (2, 3), (3, 1)}
+        ok_sign = (sign > 0) == cyclic
+        ctx.verdict(ok_sign, "R-TABLE", f"{fn.qual}::orientation::({i},{j})", tree.loc(fn.node),
+                    f"theta-hat_{{{i}({j})}} = {'+' if cyclic else '-'}acos(...) ({'cyclic' if cyclic else 'anti-cyclic'} pair)",
+                    None if ok_sign else "the sum theta-hat_{1(2)} + theta-hat_{2(3)} + theta-hat_{3(1)} is no longer 2 pi; zeta^0_{i(j)} = theta-hat takes the wrong sign in the DPD alignment")
         if sign > 0 or not ok:
             ctx.verdict(ok, "R-TERM", f"{fn.qual}::geometry::({i},{j})", tree.loc(fn.node),
                         f"cos theta-hat_{{{i}({j})}} == cosine of the angle between the momenta of particles {i} and {j} in the parent rest frame",
@@ -372,6 +380,11 @@ def run(ctx: Check, tree: Tree) -> None:
     ]
     D.reset()
     A = Angles(tree)
+    # all angle formulas contain Kallen(...): every path of Kallen.evaluate must return the polynomial
+    # (equal daughter masses are in the quantifier of the property)
+    from .c20 import check_kallen_paths
+
+    ctx.section(check_kallen_paths, ctx, tree)
     ctx.section(check_tables, ctx, tree, A)
     exprs = ctx.section(check_zeta_identities, ctx, tree, A)
     ctx.section(check_zeta_geometry, ctx, tree, A, exprs)
